@@ -36,6 +36,7 @@ func init() {
 		vapiPath + ".Int":       natNondetInt,
 		vapiPath + ".Search":    natSearch,
 		vapiPath + ".UBits":     natUBits,
+		vapiPath + ".SetField":  natSetField,
 		vapiPath + ".Bytes32":   natBytes32,
 		vapiPath + ".Assume":    natAssume,
 		vapiPath + ".Assert":    natAssert,
@@ -205,6 +206,25 @@ func natUBits(fr *frame, fn *ssa.Function, args []value) value {
 	t := i.tt.Var(full, bits)
 	i.path.nondets = append(i.path.nondets, t)
 	return mkval(i.tt.Zext(t, 64), types.Uint64)
+}
+
+// SetField(ptr any, field string, val any)
+func natSetField(fr *frame, fn *ssa.Function, args []value) value {
+	p := args[0].(iface)
+	name := args[1].(string)
+	st, ok := mustDeref(p.t).Underlying().(*types.Struct)
+	if !ok {
+		panic(engineAbort{"vapi.SetField on a non-struct pointer"})
+	}
+	cell := p.v.(*value)
+	for k := 0; k < st.NumFields(); k++ {
+		if st.Field(k).Name() == name {
+			v := args[2].(iface).v
+			store(st.Field(k).Type(), &(*cell).(structure)[k], copyVal(v))
+			return nil
+		}
+	}
+	panic(engineAbort{"vapi.SetField: no field " + name})
 }
 
 // Search(name, n): a value in [0,n) (natively: a searchable replay variable).
